@@ -321,6 +321,19 @@ func (e *SpecEnv) eval(x Expr) TV {
 		if e.Old == nil {
 			efail("old() not available here")
 		}
+		// old(g) of a ghost variable named directly is its pre-state value (the same as pre(g)); ghost variables used
+		// inside a larger old(...) expression - typically as indices - keep their current value
+		if id, ok := x.X.(*EIdent); ok {
+			if _, isVar := e.Vars[id.Name]; !isVar {
+				if _, isGhost := e.Ghost[id.Name]; isGhost {
+					if e.Ghost0 != nil {
+						if v, ok := e.Ghost0[id.Name]; ok {
+							return v
+						}
+					}
+				}
+			}
+		}
 		o := e.Old.child()
 		// bound (quantified / let) variables of the current env stay visible inside old()
 		for k, v := range e.Vars {
